@@ -42,9 +42,12 @@ type ProbeEmbedded struct {
 	Foo     string
 	Bar     int
 	Ver     version.Version
-	ReqList []string `required:"true"`
-	Yes     bool     `control:"Extra-Source-Only"`
-	Long    string   `multiline:"true"`
+	ReqList []string        `required:"true"`
+	Yes     bool            `control:"Extra-Source-Only"`
+	Long    string          `multiline:"true"`
+	Renamed string          `control:"X-Renamed"`
+	RenList []string        `control:"X-List" delim:","`
+	RenVer  version.Version `control:"X-Version"`
 }
 
 type ProbeInner struct {
